@@ -141,7 +141,40 @@ def gen_sched(rng, event: str, rep_ts: int, run, big: bool):
     return s
 
 
+MAX_EVENTS_PER_SEGMENT = 10000      # RepeatingEventBase.MAX_EVENTS_PER_SEGMENT (fix 8c4223f)
+
+
+def refused(sched: dict, rep_ts: int, tfdt: int, dur: int) -> bool:
+    """the segment spans more than MAX_EVENTS_PER_SEGMENT intervals: create_emsg_boxes refuses it
+    (ValueError -> 400) – outside the hypotheses of emsg_segment_exact, ledger D13k"""
+    a, b = seg_interval(sched, rep_ts, tfdt, dur)
+    return sched["interval"] >= 1 and (b - a) // sched["interval"] > MAX_EVENTS_PER_SEGMENT
+
+
+def gen_dense_case(rng):
+    """around the MAX_EVENTS_PER_SEGMENT guard: (B - A) // interval in {9999, 10000, 10001, …}"""
+    rep_ts, durs = gen_layout(rng)
+    ts = rng.choice([10 ** 6, 10 ** 7, 90000 * 1000, 10 ** 9])
+    tfdt, dur = rng.randrange(0, 10 ** 9), durs[0]
+    a, b = tfdt * ts // rep_ts, (tfdt + dur) * ts // rep_ts
+    q = rng.choice([9999, 10000, 10000, 10001, 10001, 20000])
+    interval = max(1, (b - a) // q)
+    # nudge so that the quotient is exactly what was asked for where possible
+    while interval > 1 and (b - a) // interval < q:
+        interval -= 1
+    event = rng.choice(["ping", "ping", "scte35"])
+    s = dict(start=max(0, b - 3 * interval + rng.choice([0, 1])), interval=interval, count=rng.choice([0, 0, 2]),
+             duration=200, timescale=ts, version=1 if event == "scte35" else rng.choice([0, 1]), inband=True)
+    if (b - s["start"]) // interval >= 2 ** 32 - 2:
+        s["start"] = max(0, a)
+    if event == "scte35":
+        s["program_id"] = 1620
+    return {"event": event, "mode": "vod", "sched": s, "rep_timescale": rep_ts, "run": [[tfdt, dur]]}
+
+
 def gen_case(rng, big: bool):
+    if rng.random() < .012:
+        return gen_dense_case(rng)
     event = "ping" if rng.random() < .65 else "scte35"
     live = rng.random() < .5
     rep_ts, durs = gen_layout(rng)
